@@ -232,7 +232,7 @@ def m7Exec (sem : Cmd → Option Redis.Cmd) (now : Nat) (s : Redis.State) (c : C
     answers exactly the reply of the client path.  No command of the translator's table is excluded. -/
 theorem call_equals_direct_on_M7 (sem : Cmd → Option Redis.Cmd) (now : Nat) (s : Redis.State) (env : Env)
     (args : List AExpr) (w : Bytes) (ws : List Bytes) (c : Cmd)
-    (hargs : argsBytes (args.map (AExpr.eval env)) = some (w :: ws)) (hp : parseLua (w :: ws) = .ok c)
+    (hargs : argsBytes (args.map (AExpr.eval env [])) = some (w :: ws)) (hp : parseLua (w :: ws) = .ok c)
     (hsem : ∀ op, sem c = some op → luaOp op = true) :
     evalScript (m7Exec sem now) env s ⟨[⟨true, args⟩], .res 0⟩ = directStep (m7Exec sem now) s (w :: ws) ∧
     parseCmd (w :: ws) = .ok c := by
